@@ -143,7 +143,8 @@ def run(thorough, seed):
     offsets_l, offsets_h = set(), set()
     n_cfg = 0
     try:
-        for vi, N in enumerate(vers_values):
+        plans = [(N, False) for N in vers_values] + [(5, True)]
+        for vi, (N, wildcard) in enumerate(plans):
             how = hows[vi % 3]
             nl = 1 + vi % 3
             hosts = ["127.0.0.1", "localhost", "::1"]
@@ -151,6 +152,10 @@ def run(thorough, seed):
             for i in range(nl):
                 h = hosts[(vi + i) % 3]
                 listen.append((h, free_port("::1" if h == "::1" else "127.0.0.1")))
+            if wildcard:
+                # an IPv4 wildcard and an IPv6 literal on the SAME port: two addresses, both must serve
+                pw = free_port("127.0.0.1")
+                listen = [("0.0.0.0", pw), ("::1", pw)]
             allow_mode = vi % 3   # none / one / many
             me = str(uuid.UUID(int=rnd.getrandbits(128), version=4))
             others = [str(uuid.UUID(int=rnd.getrandbits(128), version=4)) for _ in range(9)]
@@ -171,7 +176,11 @@ def run(thorough, seed):
                 except RuntimeError as e:
                     # a port can be taken between probing and binding: new ports, try again
                     err = str(e)
-                    listen = [(h, free_port("::1" if h == "::1" else "127.0.0.1")) for h, _ in listen]
+                    if wildcard:
+                        pw = free_port("127.0.0.1")
+                        listen = [("0.0.0.0", pw), ("::1", pw)]
+                    else:
+                        listen = [(h, free_port("::1" if h == "::1" else "127.0.0.1")) for h, _ in listen]
                     cfg["listen"] = listen
             if pr is None:
                 viol("the server does not start with this configuration (4 attempts, fresh ports each): " + err, None)
@@ -315,7 +324,7 @@ def run(thorough, seed):
     finally:
         shutil.rmtree(base, ignore_errors=True)
     return {"leg": "process", "cases": cases, "configurations": n_cfg, "requests": requests[0], "violations": violations, "samples": samples,
-            "bound": "%d configurations of the real executable (1-3 listen addresses on 127.0.0.1 / localhost / ::1; allow-list none/one/many; snapshot-versions in %s; snapshot-days in %s; each given by flag, by environment variable, or mixed), each with a kill -9 and 6 restarts on the same data directory" % (n_cfg, vers_values, days_values)}
+            "bound": "%d configurations of the real executable (1-3 listen addresses on 127.0.0.1 / localhost / ::1, one configuration with 0.0.0.0 and ::1 on the same port; allow-list none/one/many; snapshot-versions in %s; snapshot-days in %s; each given by flag, by environment variable, or mixed), each with a kill -9 and 6 restarts on the same data directory" % (n_cfg, vers_values, days_values)}
 
 
 if __name__ == "__main__":
